@@ -90,6 +90,37 @@ harnesses! {
     #[kani::stub(realfft::RealFftPlanner::<f64>::plan_fft_forward, crate::stubs::plan_fwd)]
     #[kani::stub(realfft::RealFftPlanner::<f64>::plan_fft_inverse, crate::stubs::plan_inv)]
     #[kani::stub(rubato::sinc::make_sincs, crate::stubs::make_sincs_unit)]
+    fn c07_fto_2_3_2_1(nd) {
+        let mut r = FftFixedOut::<f64>::new(2, 3, 2, 1, 1).unwrap();
+        // FFT block on the input side by the documented sizing rule (smallest multiple of
+        // rate/gcd covering chunk/sub_chunks)
+        let block_in: usize = 2;
+        let mut pos = 0usize;
+        let mut tin = 0usize;
+        let mut tout = 0usize;
+        let mut xin = [0.0f64; 9];
+        let mut out = [0.0f64; 5];
+        let s_in = nd.usize_in(0, 1);
+        let s_out = nd.usize_in(0, 1);
+        let mut k = 0;
+        while k < 4 {
+            let o = call1(nd, &mut r, &mut pos, s_in, s_out, &mut xin, &mut out);
+            obs_checks!(o, true, "base");
+            tin += o.n_in;
+            tout += o.n_out;
+            account!(tin, tout, 2, 3, block_in, false);
+            check!(r.input_frames_next() <= r.input_frames_max(), "C04.next_le_max_in[base]");
+            check!(r.output_frames_next() <= r.output_frames_max(), "C04.next_le_max_out[base]");
+            k += 1;
+        }
+        cover!(tout > 0, "frames produced");
+        forget(r);
+    }
+    #[kani::unwind(16)]
+    #[kani::stub(realfft::RealFftPlanner::<f64>::new, crate::stubs::planner_new)]
+    #[kani::stub(realfft::RealFftPlanner::<f64>::plan_fft_forward, crate::stubs::plan_fwd)]
+    #[kani::stub(realfft::RealFftPlanner::<f64>::plan_fft_inverse, crate::stubs::plan_inv)]
+    #[kani::stub(rubato::sinc::make_sincs, crate::stubs::make_sincs_unit)]
     fn c07_fto_3_2_3_1(nd) {
         let mut r = FftFixedOut::<f64>::new(3, 2, 3, 1, 1).unwrap();
         // FFT block on the input side by the documented sizing rule (smallest multiple of
